@@ -67,6 +67,9 @@ def configs(tier):
     # channel positions stored as unsigned integers (nearest-channel sets of the merged templates)
     for n in (2, 3):
         out.append({'n': n, 'T': 2, 'nc': 3, 'nsw': 2, 'ncl': 2, 'geom': 'zigzag_u32', 'wmi': 'I', 'templates': 'concrete0'})
+    # many templates, ids stored in 16 bits: products of two ids pass 65535 (focus on the clusters/templates in play)
+    out.append({'n': 2, 'T': 260, 'nc': 2, 'nsw': 2, 'ncl': 2, 'geom': 'line', 'wmi': 'I', 'templates': 'big',
+                'st_dtype': 'uint16', 'focus': {'clusters': [0, 1, 258, 259, 260], 'templates': [0, 1, 257, 258]}})
     # (B) symbolic template values, fewer spikes
     for n in ((1, 2) if quick else (1, 2, 3)):
         for nc in (2, 3):
@@ -91,8 +94,18 @@ def _concrete_templates(variant, T, nsw, nc):
     return d
 
 
+def _big_templates(T, nsw, nc):
+    d = np.zeros((T, nsw, nc))
+    for t in range(T):
+        d[t, 0, t % nc] = 1.0 + (t % 7)
+        d[t, 1, (t + 1) % nc] = -1.0 - (t % 3)
+    return d
+
+
 def run_config(cfg, e):
     pkg = env.make_pkg(record=e.functions)
+    if cfg.get('focus'):
+        e.loop_bound = 400        # the loops over cluster ids run to the highest id
     e.hash_concretize = True
     e.concretize_shapes = True
 
@@ -136,15 +149,20 @@ def run_config(cfg, e):
         if cfg['templates'] == 'symbolic':
             data, flat = models.sym_reals(e, 'w', (T, nsw, nc))
         else:
-            cd = _concrete_templates(int(cfg['templates'][-1]), T, nsw, nc)
+            cd = _big_templates(T, nsw, nc) if cfg['templates'] == 'big' else \
+                _concrete_templates(int(cfg['templates'][-1]), T, nsw, nc)
             data, flat = snp.asarray(cd), cd.ravel().tolist()
         st = [e.int('st%d' % i, 0, T - 1) for i in range(n)]
         sc = [e.int('sc%d' % i, 0, T + 1) for i in range(n)]
+        focus = cfg.get('focus')
+        if focus:
+            e.assume(sand(st[0] == 258, sc[0] == 259, sor(*[st[1] == v for v in (0, 257, 258)]),
+                          sor(*[sc[1] == v for v in (0, 258, 259, 260)])))
         if cfg.get('fix0'):
             e.assume(sand(st[0] == cfg['fix0'][0], sc[0] == cfg['fix0'][1]))
         m, Bunch = models.build_sym_model(pkg, nc, cfg['geom'], cfg['wmi'], cfg['ncl'])
         m.sparse_templates = Bunch(data=data, cols=None)
-        m.spike_templates = snp.ndarray(snp._fromlist(st, (n,)), 'int32')
+        m.spike_templates = snp.ndarray(snp._fromlist(st, (n,)), cfg.get('st_dtype', 'int32'))
         m.spike_clusters = snp.ndarray(snp._fromlist(sc, (n,)), 'int32')
         m.n_templates = T
         m.n_samples_waveforms = nsw
@@ -171,10 +189,13 @@ def run_config(cfg, e):
             sorted(mm.keys()), nclu - 1))
         e.prove(cdata.shape == (nclu, nsw, nc), 'cluster waveform array shape %s' % (cdata.shape,))
         nanl = [int(v) for v in snp.asarray(nan_idx).a.tolist()]
+        CL = [c for c in focus['clusters'] if c < nclu] if focus else list(range(nclu))
+        TL = focus['templates'] if focus else list(range(T))
         obl = []
-        for c in range(nclu):
+        for c in CL:
             lst = [int(v) for v in mm[c]]
-            for t in range(T):
+            obl.append((all(t in TL for t in lst), 'merge_map[%d] = %s lists a template no spike has' % (c, lst)))
+            for t in TL:
                 has = sor(*[sand(sc[p] == c, st[p] == t) for p in range(n)])
                 obl.append((has if t in lst else snot(has), 'template %d wrongly %s merge_map[%d]' % (
                     t, 'in' if t in lst else 'missing from', c)))
@@ -185,7 +206,7 @@ def run_config(cfg, e):
         e.prove_all(obl)
         # waveforms
         obl = []
-        for c in range(nclu):
+        for c in CL:
             lst = [int(v) for v in mm[c]]
             if len(lst) == 1:
                 t0 = lst[0]
@@ -263,7 +284,7 @@ def replay(case):
     st, sc = case['st'], case['sc']
     m = models.build_real_model(nc, case['geom'], case['wmi'], case['ncl'])
     m.sparse_templates = Bunch(data=data, cols=None)
-    m.spike_templates = np.array(st, dtype=np.int32)
+    m.spike_templates = np.array(st, dtype=case.get('st_dtype', 'int32'))
     m.spike_clusters = np.array(sc, dtype=np.int32)
     m.n_templates = T
     m.n_samples_waveforms = nsw
